@@ -25,6 +25,12 @@ import RV.C04.AnalysisLemmas
       specification's instantiation of the same solutions under another injective naming of the minted nodes, all
       drawn from the supply (`FreshSupply`: pairwise distinct, not among the data's nodes); `spec_naming_canonical`,
       `freshSupply_driver`.
+    * Round g: `pushdown_ctx : Statement_pushdown_ctx` — the same equation under the weaker, context-sensitive
+      hypothesis `Alg.safeIn P ctx` for every `μ0` binding at most `ctx` (`safeIn_of_safe`: `safe → safeIn ctx`;
+      `pushdown_ctx_sharp`: the hypothesis cannot be dropped); `eval_correct_top`, `construct_correct_blank_top`
+      (hypothesis `safeIn []`).  At the end of the file: rdflib's analysis passes `analyse` / `_addVars`
+      (`analysis_correct`, `addVars_may_partial/_witness`, `addVars_must_partial/_witness`,
+      `analysis_correct_mustOK`, `lazy_irrelevant`, `lazy_exposes_K1`).
 -/
 namespace RV.C04
 open Spec Model
